@@ -48,6 +48,9 @@ def build(pcirc, extra, mons):
         parent.map_pins({L.Pin("P_" + nm): (cst, L.Pin(nm))})
     for p in extra["pins"][1:]:
         parent.map_pins({L.Pin("P_" + p): (est, L.Pin(p))})
+    if extra.get("defs"):
+        # the parent defines `pa` through a new argument `vq` (definition default 0.25); `pa` of the child and of the extra block follow
+        parent.add_param("pa", (lambda vq=0.25: 0.5 * vq + 0.125), {"vq": 0.25})
     return child, parent, sts
 
 
@@ -58,6 +61,7 @@ def circuit_snapshot(sol):
             "connections": sorted((key(a), key(b)) for a, b in sol.connections.items()),
             "pin_mapping": sorted((n.name, key(t)) for n, t in sol.pin_mapping.items()),
             "default_params": sorted((k, repr(v)) for k, v in sol.default_params.items()),
+            "param_definitions": sorted((k, sorted((a, repr(v)) for a, v in args.items())) for k, (f, args) in sol.param_mapping.items()),
             "monitors": sorted(ids.get(id(s), "?") for s in sol.monitor_st),
             "st": [(sorted(p.name for _, p in st.pin_list), sorted((key(a), key(b)) for a, b in st.conn_dict.items())) for st in sol.structures]}
 
@@ -134,7 +138,8 @@ def run_history(ctx, pcirc, extra, steps, replay):
         kw = step[2]
         if kind == "fail":
             try:
-                target.solve(pa=np.array([0.1, 0.2, 0.3]), pb=np.array([0.1, 0.2]))
+                # (names no definition touches: a parameter redefined through add_param ignores an explicit value of its old name)
+                target.solve(pb=np.array([0.1, 0.2, 0.3]), verif_other=np.array([0.1, 0.2]))
                 ctx.violation("C06:fail-accepted", "inconsistent sweep lengths accepted", rep)
                 return False
             except Exception:
@@ -352,6 +357,8 @@ def gen_kw(rng):
         if rng.random() < 0.7:
             val = lambda: 0.0 if rng.random() < 0.25 else rng.randint(-6, 6) / 8       # 0 makes symmetric-S0 parts exactly reciprocal
             kw[nm] = (np.array([val() for _ in range(ns)]) if ns > 1 and rng.random() < 0.8 else val())
+    if rng.random() < 0.4:
+        kw["vq"] = (np.array([rng.randint(-6, 6) / 8 for _ in range(ns)]) if ns > 1 and rng.random() < 0.6 else rng.randint(-6, 6) / 8)
     return kw
 
 
@@ -392,10 +399,10 @@ def run(ctx):
             comp["default"] = dflt[comp["param"]]
         k = rng.randint(2, 3)
         extra = {"pins": [f"xq{j}" for j in range(k)], "idx": list(range(k)), "S0": gen.contractive(rng, k, target=0.4),
-                 "S1": gen.contractive(rng, k, target=0.3), "param": "pa", "default": dflt["pa"]}
+                 "S1": gen.contractive(rng, k, target=0.3), "param": "pa", "default": dflt["pa"], "defs": rng.random() < 0.4}
         steps = gen_steps(rng, rng.randint(3, maxs))
         replay = {"pcirc": c04.pcirc_json(pcirc), "extra": {"pins": extra["pins"], "idx": extra["idx"], "S0": gen.mat_json(extra["S0"]),
-                                                              "S1": gen.mat_json(extra["S1"]), "param": "pa", "default": gen.frac_str(extra["default"])},
+                                                              "S1": gen.mat_json(extra["S1"]), "param": "pa", "default": gen.frac_str(extra["default"]), "defs": extra["defs"]},
                   "steps": [[s[0], s[1], kw_json(s[2])] if s[0] != "monitor" else list(s) for s in steps]}
         nsolve = len({repr(kw_json(s[2])) + s[1] for s in steps if s[0] == "solve"})
         ctx.case(replay, nontrivial=nsolve >= 2, tags=[f"steps:{len(steps)}"] + sorted({f"has:{s[0]}" for s in steps}),
@@ -443,7 +450,7 @@ def replay(ctx, data):
     e = data["extra"]
     k = len(e["pins"])
     un = lambda flat: [[parse_cfrac(z) for z in flat[i * k:(i + 1) * k]] for i in range(k)]
-    extra = {"pins": e["pins"], "idx": e["idx"], "S0": un(e["S0"]), "S1": un(e["S1"]), "param": e["param"], "default": Fraction(e["default"])}
+    extra = {"pins": e["pins"], "idx": e["idx"], "S0": un(e["S0"]), "S1": un(e["S1"]), "param": e["param"], "default": Fraction(e["default"]), "defs": bool(e.get("defs"))}
     steps = []
     for s in data["steps"]:
         if s[0] == "monitor":
